@@ -64,14 +64,14 @@ theorem indL_iff (t : Int → α) (x : α) (nknots : Nat) (l : Int)
       exact absurd (lt_of_le_of_lt (le_trans h2 this) a) (lt_irrefl _)
   · rintro rfl; exact ⟨h1, h2⟩
 
-/-- Re-indexing: whatever interval the margin loops chose, slot `j` of the rearranged row is the
-polynomial-piece value of basis function `c - n + j` (zero where that function vanishes). -/
-theorem rearrange_spec (t : Int → α) (nknots n : Nat) (x : α) (c : Nat) (l : Int) (row : List α)
+/-- Re-indexing, for any quantity `F i` indexed by basis function that vanishes outside `[l-n, l]`:
+whatever interval the margin loops chose, slot `j` of the rearranged row is `F (c - n + j)`. -/
+theorem rearrange_spec_gen (t : Int → α) (nknots n : Nat) (x : α) (c : Nat) (l : Int) (row : List α)
+    (F : Int → α) (hzero : ∀ i : Int, (l < i ∨ i + n < l) → F i = 0)
     (hlo : n ≤ c) (hhi : c + n + 2 ≤ nknots) (hs : ShiftOK t nknots n x c l)
-    (hrow : IsLevel t x l n row) :
-    ∀ j, j ≤ n → (rearrange nknots l n row)[j]? = some (Bp t x l n ((c:Int) - n + j)) := by
+    (hlen : row.length = n + 1) (hval : ∀ m (hm : m < row.length), row[m] = F (l - n + m)) :
+    ∀ j, j ≤ n → (rearrange nknots l n row)[j]? = some (F ((c:Int) - n + j)) := by
   obtain ⟨hl0, hl1, _, hdown, hup⟩ := hs
-  obtain ⟨hlen, hval⟩ := hrow
   intro j hj
   unfold rearrange
   by_cases h1 : (n:Int) - l > 0
@@ -87,7 +87,7 @@ theorem rearrange_spec (t : Int → α) (nknots n : Nat) (x : α) (c : Nat) (l :
       congr 2; push_cast; omega
     · rw [List.getElem?_append_right (by simp [hlen]; omega), List.getElem?_replicate]
       have : j - (List.drop s row).length < s := by simp [hlen]; omega
-      rw [if_pos this, of_zero, Bp_zero_of_not_mem t x l n _ (Or.inl (by omega))]
+      rw [if_pos this, of_zero, hzero _ (Or.inl (by omega))]
   · simp only [h1, if_false]
     by_cases h2 : l + (n:Int) + 2 - (nknots:Int) > 0
     · -- upper margin: c = nknots - n - 2, shift = l - c
@@ -98,7 +98,7 @@ theorem rearrange_spec (t : Int → α) (nknots n : Nat) (x : α) (c : Nat) (l :
       rw [hs, Int.toNat_natCast, Nat.min_eq_left (by omega)]
       by_cases hjs : j < s
       · rw [List.getElem?_append_left (by simpa using hjs), List.getElem?_replicate, if_pos hjs, of_zero,
-          Bp_zero_of_not_mem t x l n _ (Or.inr (by omega))]
+          hzero _ (Or.inr (by omega))]
       · rw [List.getElem?_append_right (by simp; omega), List.length_replicate, List.getElem?_take,
           if_pos (by omega), List.getElem?_eq_getElem (by rw [hlen]; omega), hval _ (by rw [hlen]; omega)]
         congr 2; push_cast; omega
@@ -110,6 +110,13 @@ theorem rearrange_spec (t : Int → α) (nknots n : Nat) (x : α) (c : Nat) (l :
         · have := hup h; omega
       simp only [h2, if_false]
       rw [List.getElem?_eq_getElem (by rw [hlen]; omega), hval _ (by rw [hlen]; omega), hlc]
+
+theorem rearrange_spec (t : Int → α) (nknots n : Nat) (x : α) (c : Nat) (l : Int) (row : List α)
+    (hlo : n ≤ c) (hhi : c + n + 2 ≤ nknots) (hs : ShiftOK t nknots n x c l)
+    (hrow : IsLevel t x l n row) :
+    ∀ j, j ≤ n → (rearrange nknots l n row)[j]? = some (Bp t x l n ((c:Int) - n + j)) :=
+  rearrange_spec_gen t nknots n x c l row (Bp t x l n) (fun i h => Bp_zero_of_not_mem t x l n i h)
+    hlo hhi hs hrow.1 hrow.2
 
 /-- **Local basis = specification basis.**  Slot `j` of `bsplvb_simple`'s output is the Cox–de Boor
 basis function `c - n + j` with the convention of C01 (right-continuous below `knots[naxes]`,
